@@ -575,6 +575,11 @@ class Interp:
         to = P.types[rv['ty']]
         frm = P.types[rv['from']]
         if ck == 'IntToInt':
+            if isinstance(v, BoolV) and self.models.e3 and 'search' in st.ghost:
+                from . import e3
+                c = e3.bool_as_count(self, st, v.a)
+                if c is not None:
+                    return IntV(c)
             e = self.as_int(st, v)
             if to['kind'] == 'int':
                 lo, hi = self.int_range(to)
@@ -811,6 +816,9 @@ class Interp:
         if k == 'le':
             s.add_le(atom[1])
         elif k == 'eq':
+            if self.models.e3 and 'search' in st.ghost:
+                from . import e3
+                e3.on_eq(self, st, atom[1])      # before the equality eliminates the byte symbol
             s.add_eq(atom[1])
         elif k == 'ne':
             s.add_ne(atom[1])
